@@ -93,6 +93,15 @@ CHECKS.update({
             SYMNOTE + "Genz's bvnl constants are the specification of the guards and regimes.", "DESIGN.md §4 C13"),
 })
 
+CHECKS.update({
+    "C17": (True, "site rules over resolved calls (coercion, same-mask restriction on both axes, symmetrisation, type ladder) "
+                  "+ call-graph reachability of random generators",
+            CLAUSE + "Decides GH-COERCE, GH-LCC, GH-SYM, GH-INT, GH-DET. Declines: that the bounds bracket the distance (C05) "
+            "and relabelling invariance of the bounds.",
+            "Trusted: scipy shortest_path / connected_components semantics; the accepted restriction idioms are DG[m][:, m], "
+            "DG[np.ix_(m, m)], DG[m, :][:, m] (anything else is reported as unmodelled, exit 2).", "DESIGN.md §4 C17"),
+})
+
 NOT_APPLICABLE = {
     "C05": "soundness of the mGH lower/upper bounds is a theorem about computed values for every graph pair and RNG "
            "draw; no ownership, ordering, wiring or algebraic-type argument implies it (DESIGN.md §6); nearby "
